@@ -466,11 +466,25 @@ pub fn make_event(e: &Value) -> EngineEvent<DataKind> {
             quantity: dec(i(e, "qty")),
             fees: AssetFees::quote_fees(dec(0)),
         })),
-        "Balance" => account(AccountEventKind::BalanceSnapshot(Snapshot(AssetBalance {
-            asset: AssetIndex(world::FIRST_ASSET[ex as usize]),
-            balance: Balance::new(dec(i(e, "qty")), dec(i(e, "qty"))),
-            time_exchange: time(t),
-        }))),
+        "Balance" => {
+            let balance = AssetBalance {
+                asset: AssetIndex(world::FIRST_ASSET[ex as usize]),
+                balance: Balance::new(dec(i(e, "qty")), dec(i(e, "qty"))),
+                time_exchange: time(t),
+            };
+            if i(e, "qty") % 2 == 1 {
+                // the same balance inside a FULL account snapshot that lists every instrument of the exchange
+                // without any order report (a re-sync taken before the exchange has seen the requests in
+                // flight): tracked orders and their in-flight marks are not touched by it
+                let instruments = (0..world::N_INST)
+                    .filter(|n| world::EX_OF[*n] == ex as usize)
+                    .map(|n| barter_execution::InstrumentAccountSnapshot { instrument: InstrumentIndex(n), orders: vec![] })
+                    .collect();
+                account(AccountEventKind::Snapshot(barter_execution::AccountSnapshot { exchange: ExchangeIndex(ex as usize), balances: vec![balance], instruments }))
+            } else {
+                account(AccountEventKind::BalanceSnapshot(Snapshot(balance)))
+            }
+        }
         "TradingState" => EngineEvent::TradingStateUpdate(match s(e, "to") {
             "Enabled" => TradingState::Enabled,
             "Disabled" => TradingState::Disabled,
